@@ -32,3 +32,21 @@ fn bound_on_second_index_column_loses_no_rows() {
     want2.sort();
     assert_eq!(ids(&db, "SELECT id FROM t WHERE b >= 0 AND a < 26"), want2, "index scan with two bounds loses rows");
 }
+
+#[test]
+fn equality_on_part_of_a_composite_key_returns_every_match() {
+    let dir = tempfile::TempDir::new().unwrap();
+    let db = Database::create(dir.path().join("t.db"), DBConfig::default()).unwrap();
+    db.execute("CREATE TABLE s (id BIGINT, room INT, seat INT)").unwrap();
+    db.execute("CREATE UNIQUE INDEX idx_s ON s (room, seat)").unwrap();
+    let mut id = 0;
+    for room in 1..=4 {
+        for seat in 1..=5 {
+            id += 1;
+            db.execute(&format!("INSERT INTO s VALUES ({id}, {room}, {seat})")).unwrap();
+        }
+    }
+    assert_eq!(ids(&db, "SELECT id FROM s WHERE room = 3").len(), 5, "equality on the leading key column loses rows");
+    assert_eq!(ids(&db, "SELECT id FROM s WHERE seat = 2").len(), 4, "equality on the second key column loses rows");
+    assert_eq!(ids(&db, "SELECT id FROM s WHERE room >= 3 AND room <= 3").len(), 5, "closed range on the leading key column loses rows");
+}
